@@ -224,6 +224,20 @@ Theorem C20_det_value : forall (F : Type) (K : fops F), flaws K ->
 Proof. exact @det_value. Qed.
 Print Assumptions C20_det_value.
 
+(* the coded determinant of the coded transpose *)
+Theorem C20_det_transpose : forall (F : Type) (K : fops F), flaws K ->
+  forall n (M : @matrix F), wf_matrix n n M -> 0 < n ->
+  determinant K (transpose K M) = determinant K M.
+Proof. exact @det_transpose. Qed.
+Print Assumptions C20_det_transpose.
+
+(* det(A·B) = det(A)·det(B) for the coded determinant and product, all square matrices *)
+Theorem C20_det_mul : forall (F : Type) (K : fops F), flaws K ->
+  forall n (A B : @matrix F), wf_matrix n n A -> wf_matrix n n B -> 0 < n ->
+  determinant K (mmul K A B) = fmul K (determinant K A) (determinant K B).
+Proof. exact @det_mul. Qed.
+Print Assumptions C20_det_mul.
+
 (* multiplicativity (invertible left factor) and Cramer's rule as the code applies it
    (SetColumn + Determinant, divided by the determinant) *)
 Theorem C20_det_mul_invertible : forall (F : Type) (K : fops F), flaws K ->
